@@ -4,6 +4,7 @@ message, every protocol version, both transaction encodings), identifiers are ro
 message framing, pinned constants. Helper lemmas are in Lemmas.lean / Common/CodecLemmas.lean.
 -/
 import BV.C08.Lemmas
+import BV.C08.Alloc
 import BV.Generated.C08
 namespace BV.C08
 open BV.Codec
@@ -215,6 +216,115 @@ theorem readMessage_canonical {α : Type} (c : Codec α) (hc : Lawful c) (maxPay
             have hcm' : cm = padCommand cmd := by simpa using hcm
             subst hn' hcm' ep
             exact ⟨e, wa, by omega⟩
+
+/-! ### hostile bytes: no panic, bounded allocation
+
+`alloc` counts the bytes a decoder requests from the allocator on an input (successful or not), charged
+where the Go code calls `make` after accepting a count (`count * sizeof element`, the element sizes of
+the 64-bit build). Every decoder obeys `alloc b ≤ A + B·|b|` with constants fixed per message; with
+`|b| ≤ MaxProtocolMessageLength` (what `ReadMessage` admits) that is below `allocK · MaxMessagePayload`. -/
+
+/-- the decoders are total: every input is answered by a value or an error, nothing else
+(the model has no panic outcome; that the Go decoders do not panic either is what the correspondence
+run observes on every malformed input). -/
+theorem decode_total {α : Type} (c : Codec α) (b : Bytes) :
+    (∃ a r, c.dec b = .ok (a, r)) ∨ (∃ e, c.dec b = .error e) := by
+  cases h : c.dec b with
+  | error e => exact Or.inr ⟨e, rfl⟩
+  | ok p => exact Or.inl ⟨p.1, p.2, rfl⟩
+
+/-- whatever decodes leaves a suffix of the input: decoders never read past or invent bytes -/
+theorem decode_rest_suffix {α : Type} (c : Codec α) (hc : Lawful c) (b : Bytes) (a : α) (r : Bytes)
+    (h : c.dec b = .ok (a, r)) : r.length ≤ b.length := shrinks_of_lawful hc b a r h
+
+theorem tx_alloc_linear (e : TxEnc) (b : Bytes) : (tx e).alloc b ≤ txA + 25 * b.length :=
+  (tx_alloc e).bound b
+
+theorem block_alloc_linear (e : TxEnc) (b : Bytes) :
+    (block e).alloc b ≤ (maxTxPerBlock * 72 + txA) + 33 * b.length := (block_alloc e).bound b
+
+/-- from the linear law to the fixed multiple, for inputs `ReadMessage` can hand to a payload decoder -/
+theorem alloc_le_K {α : Type} {c : Codec α} {A B : Nat} (h : AllocB c A B)
+    (hK : A + B * MaxProtocolMessageLength ≤ allocK * MaxMessagePayload) (b : Bytes)
+    (hb : b.length ≤ MaxProtocolMessageLength) : c.alloc b ≤ allocK * MaxMessagePayload := by
+  have h1 := h.bound b
+  have h2 : B * b.length ≤ B * MaxProtocolMessageLength := Nat.mul_le_mul_left _ hb
+  omega
+
+theorem tx_alloc_bounded (e : TxEnc) (b : Bytes) (hb : b.length ≤ MaxProtocolMessageLength) :
+    (tx e).alloc b ≤ allocK * MaxMessagePayload := alloc_le_K (tx_alloc e) (by decide) b hb
+
+theorem block_alloc_bounded (e : TxEnc) (b : Bytes) (hb : b.length ≤ MaxProtocolMessageLength) :
+    (block e).alloc b ≤ allocK * MaxMessagePayload := alloc_le_K (block_alloc e) (by decide) b hb
+
+/-- a whole message from an arbitrary byte stream of ANY length: payload buffer + payload decoder stay
+below the fixed multiple, because the header's length field is capped before the buffer is made. -/
+theorem message_alloc_bounded {α : Type} {c : Codec α} {A B : Nat} (h : AllocB c A B)
+    (hK : MaxProtocolMessageLength + (A + B * MaxProtocolMessageLength) ≤ allocK * MaxMessagePayload)
+    (b : Bytes) : readMessageAlloc c b ≤ allocK * MaxMessagePayload := by
+  unfold readMessageAlloc
+  have h1 := frame_alloc_le b
+  split
+  · rename_i n cm pl r hd
+    have hw := (frame_lawful.enc_dec _ _ _ hd).2
+    have hlen : pl.length ≤ MaxProtocolMessageLength := by
+      have h2 : framedPayload.wf pl := hw.2.2
+      have h3 := h2.1.1.1.2
+      simpa using h3
+    have h4 := h.bound pl
+    have h5 : B * pl.length ≤ B * MaxProtocolMessageLength := Nat.mul_le_mul_left _ hlen
+    omega
+  · omega
+
+theorem msg_alloc_tx (e : TxEnc) (b : Bytes) : readMessageAlloc (tx e) b ≤ allocK * MaxMessagePayload :=
+  message_alloc_bounded (tx_alloc e) (by decide) b
+theorem msg_alloc_block (e : TxEnc) (b : Bytes) : readMessageAlloc (block e) b ≤ allocK * MaxMessagePayload :=
+  message_alloc_bounded (block_alloc e) (by decide) b
+theorem msg_alloc_inv (b : Bytes) : readMessageAlloc invList b ≤ allocK * MaxMessagePayload :=
+  message_alloc_bounded invList_alloc (by decide) b
+theorem msg_alloc_headers (b : Bytes) : readMessageAlloc headers b ≤ allocK * MaxMessagePayload :=
+  message_alloc_bounded headers_alloc (by decide) b
+theorem msg_alloc_getBlocks (b : Bytes) : readMessageAlloc getBlocks b ≤ allocK * MaxMessagePayload :=
+  message_alloc_bounded getBlocks_alloc (by decide) b
+theorem msg_alloc_addr (pver : Nat) (b : Bytes) : readMessageAlloc (addr pver) b ≤ allocK * MaxMessagePayload :=
+  message_alloc_bounded (addr_alloc pver) (by decide) b
+theorem msg_alloc_addrV2 (b : Bytes) : readMessageAlloc addrV2 b ≤ allocK * MaxMessagePayload :=
+  message_alloc_bounded addrV2_alloc (by decide) b
+theorem msg_alloc_version (pver : Nat) (b : Bytes) :
+    readMessageAlloc (version pver) b ≤ allocK * MaxMessagePayload :=
+  message_alloc_bounded (version_alloc pver) (by decide) b
+theorem msg_alloc_reject (pver : Nat) (b : Bytes) :
+    readMessageAlloc (reject pver) b ≤ allocK * MaxMessagePayload :=
+  message_alloc_bounded (reject_alloc pver) (by decide) b
+theorem msg_alloc_filterLoad (pver : Nat) (b : Bytes) :
+    readMessageAlloc (filterLoad pver) b ≤ allocK * MaxMessagePayload :=
+  message_alloc_bounded (filterLoad_alloc pver) (by decide) b
+theorem msg_alloc_filterAdd (pver : Nat) (b : Bytes) :
+    readMessageAlloc (filterAdd pver) b ≤ allocK * MaxMessagePayload :=
+  message_alloc_bounded (filterAdd_alloc pver) (by decide) b
+theorem msg_alloc_merkleBlock (pver : Nat) (b : Bytes) :
+    readMessageAlloc (merkleBlock pver) b ≤ allocK * MaxMessagePayload :=
+  message_alloc_bounded (merkleBlock_alloc pver) (by decide) b
+theorem msg_alloc_cfilter (b : Bytes) : readMessageAlloc cfilter b ≤ allocK * MaxMessagePayload :=
+  message_alloc_bounded cfilter_alloc (by decide) b
+theorem msg_alloc_cfheaders (b : Bytes) : readMessageAlloc cfheaders b ≤ allocK * MaxMessagePayload :=
+  message_alloc_bounded cfheaders_alloc (by decide) b
+theorem msg_alloc_cfcheckpt (b : Bytes) : readMessageAlloc cfcheckpt b ≤ allocK * MaxMessagePayload :=
+  message_alloc_bounded cfcheckpt_alloc (by decide) b
+/-- ping, pong, feefilter, getcf*, and the empty messages allocate nothing beyond the payload buffer -/
+theorem msg_alloc_small (pver gate : Nat) (b : Bytes) :
+    readMessageAlloc (ping pver) b ≤ allocK * MaxMessagePayload ∧
+    readMessageAlloc (pong pver) b ≤ allocK * MaxMessagePayload ∧
+    readMessageAlloc (feeFilter pver) b ≤ allocK * MaxMessagePayload ∧
+    readMessageAlloc getcfilters b ≤ allocK * MaxMessagePayload ∧
+    readMessageAlloc getcfcheckpt b ≤ allocK * MaxMessagePayload ∧
+    readMessageAlloc (emptyFrom pver gate) b ≤ allocK * MaxMessagePayload ∧
+    readMessageAlloc emptyMsg b ≤ allocK * MaxMessagePayload :=
+  ⟨message_alloc_bounded (ping_alloc pver) (by decide) b, message_alloc_bounded (pong_alloc pver) (by decide) b,
+   message_alloc_bounded (feeFilter_alloc pver) (by decide) b, message_alloc_bounded getcfilters_alloc (by decide) b,
+   message_alloc_bounded getcfcheckpt_alloc (by decide) b,
+   message_alloc_bounded (emptyFrom_alloc pver gate) (by decide) b,
+   message_alloc_bounded emptyMsg_alloc (by decide) b⟩
 
 /-! ### the tolerant decoders (findings F-C08-a, F-C08-b) -/
 
